@@ -5,7 +5,7 @@ from ..ast import bind
 
 ID = "C12"
 RULE = ("Mode M: EVERY system of the named spaces (same as C11: all coefficient/constant alphabets incl. |coefficient|>1 where the quotient "
-        "is fractional, all bound boxes incl. negative and degenerate) plus the asserted polyhedra of the abc/explicit models. Executed: "
+        "is fractional, all bound boxes incl. negative and degenerate) plus the asserted polyhedra of the abc/explicit models, plus 1x2 / 2x2 systems over 16-bit boxes (exact corner formulas for row bounds and counts; tightened bounds against every solution on a completion grid). Executed: "
         "tighten_column_bounds, row_bounds, column_bounds, n_row_combinations (and tighten again on the tightened box - a non-initial state). "
         "oracle = brute force over the box: tightened bounds contain every solution, are never wider than declared, lb>ub only when there "
         "is no solution; row_bounds == exact (min,max) of A_i x - b_i; column_bounds == declared; n_row_combinations == number of distinct "
@@ -16,14 +16,112 @@ QUICK = ["1x1", "1x2", "1x3", "2x1", "2x2", "2x2b", "2x3q", "3x2q", "1x2w", "2x2
 THOROUGH = QUICK + ["2x3", "3x2", "2x2T", "1x3T", "2x3T", "3x3T"]
 
 
+WIDE_BOXES = [(-32768, 32767), (-20000, 20000), (0, 32767), (-32768, 0), (0, 1)]
+
+
+def wide_cases():
+    """Systems over 16-bit boxes (inside the default integer range, far too large to enumerate): 1x2 and 2x2, coefficients up to 2."""
+    import itertools
+    out = []
+    for a in itertools.product((-2, -1, 1, 2), repeat=2):
+        for b in (-40000, -1, 0, 1, 40000):
+            for bx in itertools.product(WIDE_BOXES[:4], WIDE_BOXES):
+                out.append((np.array([[b, a[0], a[1]]], dtype=np.int64), list(bx)))
+    for a in ((1, -1, -1, 2), (2, 1, -1, -2), (1, 1, -1, -1), (-1, 2, 1, 0)):
+        for b in ((0, 0), (-1, 1), (1, -40000)):
+            for bx in itertools.product(WIDE_BOXES[:3], repeat=2):
+                out.append((np.array([[b[0], a[0], a[1]], [b[1], a[2], a[3]]], dtype=np.int64), list(bx)))
+    return out
+
+
+_WC = []
+
+
+def wc():
+    if not _WC:
+        _WC.extend(wide_cases())
+    return _WC
+
+
+def grid(lo, hi):
+    cs = {0, lo, hi, -lo, -hi, 20000, -20000, 40000, -40000, 32767, -32768}
+    pts = {c + d for c in cs for d in range(-3, 4)} | {c // 2 + d for c in cs for d in (-1, 0, 1)}
+    return sorted(p for p in pts if lo <= p <= hi)
+
+
+def check_wide(k, acc):
+    """Boxes that cannot be enumerated: row bounds / combination counts are compared with exact integer formulas over the corners; the
+    tightened bounds must not cut off any point of a completion GRID that satisfies the system (every such point is a genuine solution:
+    a sound but incomplete oracle, and reported as such)."""
+    M, bds = wc()[k]
+    P = mspace.polyhedron(M, bds)
+    case = {"kind": "W", "k": k}
+    desc = {"matrix": M.tolist(), "bounds": bds}
+    acc.n("traces")
+    acc.n("systems")
+    acc.state(("W", k))
+    try:
+        tb = np.asarray(P.tighten_column_bounds())
+        rb = np.asarray(P.row_bounds())
+        nrc = np.asarray(P.n_row_combinations)
+    except BaseException as e:
+        acc.violation(None, case, dict(desc, what="bounds API raised", exc=repr(e)))
+        return
+    acc.n("transitions", 3)
+    acc.obs(tb.tolist(), rb.tolist(), nrc.tolist())
+    A, b = M[:, 1:], M[:, 0]
+    exact = []
+    for i in range(A.shape[0]):
+        lo_ = sum(min(int(a) * l, int(a) * h) for a, (l, h) in zip(A[i], bds)) - int(b[i])
+        hi_ = sum(max(int(a) * l, int(a) * h) for a, (l, h) in zip(A[i], bds)) - int(b[i])
+        exact.append([lo_, hi_])
+    if rb.tolist() != exact:
+        acc.violation(None, case, dict(desc, what="row_bounds are not the exact min/max of A_i x - b_i over the box", got=rb.tolist(), exact=exact))
+        return
+    want = []
+    for i in range(A.shape[0]):
+        n = 1
+        for a, (l, h) in zip(A[i], bds):
+            if a != 0:
+                n *= (h - l + 1)
+        want.append(n)
+    if [int(x) for x in nrc.tolist()] != want:
+        acc.violation(None, case, dict(desc, what="n_row_combinations differs from a direct enumeration", got=nrc.tolist(), want=want))
+        return
+    lb, ub = tb[0], tb[1]
+    if any(int(lb[j]) < bds[j][0] or int(ub[j]) > bds[j][1] for j in range(len(bds))):
+        acc.violation(None, case, dict(desc, what="tightened bounds are wider than the declared bounds", got=tb.tolist()))
+        return
+    gpts = ref.box_points([(0, 0)] * 0) if False else None
+    import itertools
+    sols = 0
+    for pt in itertools.product(*[grid(l, h) for (l, h) in bds]):
+        x = np.array(pt, dtype=np.int64)
+        if (A @ x >= b).all():
+            sols += 1
+            if any(pt[j] < int(lb[j]) or pt[j] > int(ub[j]) for j in range(len(bds))):
+                acc.violation(None, case, dict(desc, what="tightened bounds cut off an in-bounds integer solution", tightened=tb.tolist(), solution=list(pt)))
+                return
+    if sols and any(int(lb[j]) > int(ub[j]) for j in range(len(bds))):
+        acc.violation(None, case, dict(desc, what="lower bound above upper bound although a solution exists", tightened=tb.tolist()))
+        return
+    if sols:
+        acc.nontriv(("W", k))
+
+
 def shards(tier):
-    out = [("M",) + s for s in mspace.shards_for(QUICK if tier == "quick" else THOROUGH, 4000)]
+    out = [("W", "wide", lo, min(len(wc()), lo + 40)) for lo in range(0, len(wc()), 40)]
+    out += [("M",) + s for s in mspace.shards_for(QUICK if tier == "quick" else THOROUGH, 4000)]
     out += [("P",) + s for s in families.shards_for(["abc/explicit"] if tier == "quick" else ["abc/explicit", "abt/explicit", "diamond/explicit"], 600)]
     return out
 
 
 def run_shard(desc, acc, tier):
     kind, name, lo, hi = desc
+    if kind == "W":
+        for k in range(lo, hi):
+            check_wide(k, acc)
+        return
     if kind == "M":
         for idx in range(lo, hi):
             M, bds = mspace.case_at(name, idx)
@@ -137,6 +235,9 @@ def check(P, acc, case, depth=0):
 
 def replay(case, acc):
     from ..runner import tuplify
+    if case["kind"] == "W":
+        check_wide(case["k"], acc)
+        return
     if case["kind"] == "M":
         M, bds = mspace.case_at(case["space"], case["idx"])
         if case.get("twin"):
